@@ -46,7 +46,12 @@ def main():
                 ev += 1
                 if case.nontrivial(inp):
                     nontriv.add(hash(repr(inp)))
-                msg = case.check(inp)
+                try:
+                    msg = case.check(inp)
+                except HarnessError:
+                    raise
+                except Exception as e_:        # the contract could not even be evaluated on what the code returned
+                    msg = f"contract evaluation raised {type(e_).__name__}: {e_!r} (the code's result has a shape the contract does not allow)"
                 if msg:
                     hit = None
                     for k in kn:
